@@ -396,6 +396,32 @@ static void fill_random(Buf& b, const std::vector<Operand>& in, Rng& rng, int el
 }
 static bool normal_or_zero(T v) { return v == 0 || std::isnormal(v); }
 
+// C05 operand classes: wide log-uniform, moderate, and "near": operands that share a dimension set are
+// nearly equal (cp ~ cv, total ~ static) and dimensionless ones are near one (gamma -> 1, Mach -> 1), which is
+// where relations that subtract lose their accuracy.
+static const char* kC05Class[3] = {"wide", "moderate", "near-equal/near-one"};
+static void fill_c05(Buf& b, const std::vector<Operand>& in, Rng& rng, int cls, int e) {
+  if (cls == 0) {
+    fill_random(b, in, rng, -e, e, false);
+  } else if (cls == 1) {
+    fill_random(b, in, rng, -10, 10, false);
+  } else {
+    std::map<std::array<int, 7>, T> scale;
+    for (size_t k = 0; k < in.size(); ++k) {
+      auto it = scale.find(in[k].dims);
+      if (it == scale.end()) {
+        bool dimensionless = true;
+        for (int d : in[k].dims) dimensionless = dimensionless && d == 0;
+        it = scale.emplace(in[k].dims, dimensionless ? static_cast<T>(1) : std::ldexp(static_cast<T>(1), rng.range(-10, 10))).first;
+      }
+      for (int i = 0; i < in[k].n; ++i) {
+        const T delta = std::ldexp(rng.mantissa<T>(), -rng.range(1, std::is_same_v<T, float> ? 12 : 24));
+        b.v[k][i] = it->second * (static_cast<T>(1) + (rng.below(4) == 0 ? -delta / 2 : delta));
+      }
+    }
+  }
+}
+
 // ---- C03 ----
 static void c03_driver(Reporter& R, const Rel& r) {
   const std::string key = "C03|" + r.what + "|" + TN;
@@ -692,7 +718,7 @@ static void c05_operator_driver(Reporter& R, const Rel& r) {
     Buf b, b2;
     T c[kMaxN], back[kMaxN];
     for (int rep = 0; rep < reps; ++rep) {
-      fill_random(b, r.in, rng, -e, e, false);
+      fill_c05(b, r.in, rng, rep % 3, e);
       r.call(b.p, c, b.sp);
       for (int i = 0; i < r.out.n; ++i) b2.v[0][i] = c[i];
       for (int i = 0; i < r.in[1].n; ++i) b2.v[1][i] = b.v[1][i];
@@ -727,7 +753,7 @@ static void c05_pair_driver(Reporter& R, const Pair& p) {
     Buf b, b2;
     T c[kMaxN], back[kMaxN];
     for (int rep = 0; rep < reps; ++rep) {
-      fill_random(b, p.in, rng, -e, e, false);
+      fill_c05(b, p.in, rng, rep % 3, e);
       p.forward(b.p, c, b.sp);
       for (int i = 0; i < p.mid.n; ++i) b2.v[0][i] = c[i];
       for (int a = 0; a < nargs; ++a) for (int i = 0; i < p.in[a].n; ++i) b2.v[a + 1][i] = b.v[a][i];
